@@ -24,6 +24,12 @@ for p in props:
         "level_note": "; ".join(c.get("trusted_base", []) + c.get("assumptions", [])),
         "technique": c.get("technique", "Lean 4 machine-checked proof over a model tied to the code by regenerated definitions (go2lean) and a differential correspondence check"),
     })
+import subprocess
+try:
+    hooks = subprocess.run(["git", "-C", "/repo", "log", "--format=%h %s", "--grep=^verif hook"], capture_output=True, text=True).stdout.strip().splitlines()
+    meta["hooks"]["source_commits"] = [h.split()[0] for h in hooks]
+except Exception:
+    pass
 m = {
     "version": 1,
     "setup_cmd": "./setup.sh",
